@@ -110,7 +110,8 @@ fn tpl_for(tag: usize, two: bool, key_nl: bool, blanks: usize) -> STpl {
     }
     if key_nl {
         let at = lines.len() - 1;
-        lines[at].push(SPart::KeyNl(format!("nl{tag}")));
+        // (every third such bar gets a blank row between the two: the key writes two line breaks)
+        lines[at].push(SPart::KeyNl(if tag % 3 == 1 { format!("\nnl{tag}") } else { format!("nl{tag}") }));
     }
     if two {
         lines.push(vec![SPart::Lit(format!(" b{tag} ")), SPart::Prefix, SPart::Lit(".".into())]);
